@@ -379,7 +379,7 @@ func WithCIBAJARRequired(
 ) ProviderOption {
 	return func(p Provider) error {
 		p.config.CIBAJARIsRequired = true
-		return WithJAR(alg, algs...)(p)
+		return WithCIBAJAR(alg, algs...)(p)
 	}
 }
 
